@@ -22,6 +22,10 @@ CONSTANTS MaxC,          \* connection ids 1..MaxC
                          \*       and Unregister reads the registry under the same lock (repair 2 of C10)
           FixCancel,     \* TRUE: CancelPairingWithSKI ends a connection whose handshake is past the hello phase (repair); FALSE:
                          \*       such a connection goes on and completes although the pairing was cancelled
+          CancelSplit,   \* TRUE: CancelPairingWithSKI is the two steps it is in the code (the library acts in between); FALSE: one step
+          FixCancelOrder,\* TRUE: it takes the trust away first and then looks into the registry under the registration lock
+                         \*       (repair 2 of CancelPairingWithSKI); FALSE: it looked first - a dial that became a connection in
+                         \*       between went on, completed and made the peer trusted again
           FixShut,       \* TRUE: registration checks the shutdown flag and Shutdown collects the connections under the
                          \*       registration lock (repair 3 of C10); FALSE: a connection being set up survives Shutdown
           Rich,          \* TRUE: Unregister / Disappear / Restart / Shutdown are environment actions as well
@@ -35,8 +39,9 @@ Other(h) == IF h = "A" THEN "B" ELSE "A"
 Higher(h) == h = "A"
 Conns == 1..MaxC
 
-VARIABLES trusted, visible, reg, cnt, running, dials, reports, conn, nextId, disturb, shut, intent, auto, ureg, script
-svars == <<trusted, visible, reg, cnt, running, dials, reports, conn, nextId, disturb, shut, intent, auto, ureg>>
+VARIABLES trusted, visible, reg, cnt, running, dials, reports, conn, nextId, disturb, shut, intent, auto, ureg, script,
+          canc           \* canc[h]: a CancelPairingWithSKI call of hub h's user is between its two steps
+svars == <<trusted, visible, reg, cnt, running, dials, reports, conn, nextId, disturb, shut, intent, auto, ureg, canc>>
 vars == <<svars, script>>
 
 \* conn[c] = [cl, sv, cpc, spc, alive, done]
@@ -47,6 +52,7 @@ Init == /\ trusted = [h \in Hubs |-> Warm] /\ visible = [h \in Hubs |-> Warm]
         /\ running = [h \in Hubs |-> FALSE] /\ dials = [h \in Hubs |-> {}]
         /\ reports = [h \in Hubs |-> IF Warm THEN 1 ELSE 0]
         /\ conn = [c \in Conns |-> NoConn] /\ nextId = 1 /\ disturb = 0 /\ shut = [h \in Hubs |-> FALSE] /\ intent = [h \in Hubs |-> Warm] /\ auto = [h \in Hubs |-> FALSE] /\ ureg = [h \in Hubs |-> Warm] /\ script = <<>>
+        /\ canc = [h \in Hubs |-> FALSE]
 
 LiveConns(h) == Cardinality({c \in Conns : reg[h] = c})
 \* checkAutoReannounce: #trusted > #connections -> RequestMdnsEntries -> one more report goroutine
@@ -287,7 +293,7 @@ Shutdown(h) == /\ Rich /\ disturb < MaxDisturb /\ ~shut[h]
 \* abort its handshake - which only takes effect while it waits in its hello phase.  As is (FixCancel = FALSE) a connection
 \* in any other state goes on: it completes, or stays completed, although the pairing was cancelled.  The repair ends such
 \* a connection like UnregisterRemoteSKI does.
-Cancel(h) == /\ Rich2 /\ disturb < MaxDisturb /\ ureg[h] /\ ~shut[h]
+Cancel(h) == /\ Rich2 /\ ~CancelSplit /\ disturb < MaxDisturb /\ ureg[h] /\ ~shut[h]
              /\ trusted' = [trusted EXCEPT ![h] = FALSE] /\ intent' = [intent EXCEPT ![h] = FALSE]
              /\ ureg' = [ureg EXCEPT ![h] = FALSE]
              /\ LET c == reg[h] IN
@@ -300,6 +306,30 @@ Cancel(h) == /\ Rich2 /\ disturb < MaxDisturb /\ ureg[h] /\ ~shut[h]
                             /\ cnt' = [cnt EXCEPT ![h] = 3] /\ UNCHANGED reg
              /\ disturb' = disturb + 1
              /\ UNCHANGED <<visible, running, dials, reports, nextId, shut, auto>>
+\* The same call as the two steps the code takes, with the library free to act in between (CancelSplit).  What the call does
+\* to the connection it finds: CancelConn.  As it was, step 1 looked into the registry (without the registration lock) and
+\* step 2 took the trust away; repaired (FixCancelOrder), step 1 takes the trust away and step 2 looks into the registry under
+\* the registration lock.  The user's word (intent, ureg) is taken back when the call returns.
+CancelConn(h) ==
+    LET c == reg[h] IN
+    IF c = 0 THEN UNCHANGED <<conn, reg>>
+    ELSE \E inHello \in (IF conn[c].done THEN {FALSE} ELSE BOOLEAN) :
+           IF FixCancel
+           THEN conn' = [CloseExisting(h, conn) EXCEPT ![c].alive = FALSE] /\ reg' = [reg EXCEPT ![h] = 0]
+           ELSE conn' = (IF inHello THEN [conn EXCEPT ![c].alive = FALSE] ELSE conn) /\ UNCHANGED reg
+Cancel1(h) == /\ Rich2 /\ CancelSplit /\ disturb < MaxDisturb /\ ureg[h] /\ ~shut[h] /\ ~canc[h]
+              /\ canc' = [canc EXCEPT ![h] = TRUE] /\ cnt' = [cnt EXCEPT ![h] = 3]
+              /\ IF FixCancelOrder THEN trusted' = [trusted EXCEPT ![h] = FALSE] /\ UNCHANGED <<conn, reg>>
+                                   ELSE CancelConn(h) /\ UNCHANGED trusted
+              /\ UNCHANGED <<visible, running, dials, reports, nextId, disturb, shut, intent, auto, ureg>>
+Cancel2(h) == /\ canc[h] /\ canc' = [canc EXCEPT ![h] = FALSE]
+              \* (the trust is taken away at the end in both orders: a client connection that reached hello-ok in between had
+              \*  set it again)
+              /\ trusted' = [trusted EXCEPT ![h] = FALSE]
+              /\ IF FixCancelOrder THEN CancelConn(h) ELSE UNCHANGED <<conn, reg>>
+              /\ intent' = [intent EXCEPT ![h] = FALSE] /\ ureg' = [ureg EXCEPT ![h] = FALSE]
+              /\ disturb' = disturb + 1
+              /\ UNCHANGED <<visible, cnt, running, dials, reports, nextId, shut, auto>>
 \* SetAutoAccept: the flag, and a new announcement (register = true / false) which the peer's manager reports
 SetAuto(h, b) == /\ Rich2 /\ disturb < MaxDisturb /\ ~shut[h] /\ auto[h] # b
                  /\ auto' = [auto EXCEPT ![h] = b]
@@ -317,17 +347,21 @@ RegState(h) == IF h \notin Hubs THEN "" ELSE IF reg[h] = 0 THEN "none" ELSE IF c
 \* (a transport cut names the hub that accepted the connection and how far that connection had come)
 LogSt(op, h, st) == script' = IF EmitMode = "none" THEN script ELSE Append(script, [op |-> op, h |-> h, quiet |-> LibIdle, st |-> st])
 Log(op, h) == script' = IF EmitMode = "none" THEN script ELSE Append(script, [op |-> op, h |-> h, quiet |-> LibIdle, st |-> RegState(h)])
-Env == \/ \E h \in Hubs : (Register(h) /\ Log("Register", h)) \/ (Appear(h) /\ Log("Appear", h)) \/ (Disconnect(h) /\ Log("Disconnect", h))
+NoCallInProgress == \A h \in Hubs : ~canc[h]
+EnvOne == \/ \E h \in Hubs : (Register(h) /\ Log("Register", h)) \/ (Appear(h) /\ Log("Appear", h)) \/ (Disconnect(h) /\ Log("Disconnect", h))
                           \/ (Unregister(h) /\ Log("Unregister", h)) \/ (Disappear(h) /\ Log("Disappear", h))
                           \/ (Restart(h) /\ Log("Restart", h)) \/ (Shutdown(h) /\ Log("Shutdown", h))
                           \/ (Cancel(h) /\ Log("Cancel", h)) \/ (SetAuto(h, TRUE) /\ Log("AutoOn", h)) \/ (SetAuto(h, FALSE) /\ Log("AutoOff", h))
        \/ \E c \in Conns : (Cut(c) /\ LogSt("Cut", conn[c].sv, IF conn[c].done THEN "done" ELSE IF conn[c].spc = "reg" THEN "setup" ELSE "none"))
-Next == (Lib /\ UNCHANGED script) \/ Env
+\* (no other user operation while a CancelPairingWithSKI call is between its steps: the library is what interleaves)
+Env == \/ (NoCallInProgress /\ EnvOne /\ UNCHANGED canc)
+       \/ \E h \in Hubs : (Cancel1(h) /\ UNCHANGED script) \/ (Cancel2(h) /\ Log("Cancel", h))
+Next == (Lib /\ UNCHANGED <<script, canc>>) \/ Env
 Spec == Init /\ [][Next]_vars /\ WF_vars(Lib)
 
 \* ------------------------------------------------------------------ properties
 Stable == IdWrong = {} /\ \A h \in Hubs : intent[h] /\ visible[h] /\ ~shut[h]
-Quiet  == /\ \A h \in Hubs : reports[h] = 0 /\ dials[h] = {}
+Quiet  == /\ \A h \in Hubs : reports[h] = 0 /\ dials[h] = {} /\ ~canc[h]
           /\ ~ENABLED Lib
 Emit == EmitMode = "none" \/ script' = script \/ PrintT(<<"TEST", ToJson(script')>>)
 Good(c) == conn[c].alive /\ conn[c].done /\ conn[c].cpc = "reg" /\ conn[c].spc = "reg"
